@@ -1,7 +1,8 @@
 From Coq Require Import Extraction ExtrOcamlBasic.
-From PV Require Import Lib.ExtractBase Model.Headers Model.HttpConns Model.HttpShoot Model.HdrLine.
+From PV Require Import Lib.ExtractBase Model.Headers Model.HttpConns Model.HttpShoot Model.HdrLine Model.HttpTunnel.
 Extraction Language OCaml.
 Extraction "extracted/C09_model.ml" xb_types canon_mime effective file_requests on_wire
   spec_wire file_spec spec_hdrs spec_get spec_host spec_method spec_body entry_defined cfg_map hm_get host_key
   shoot_body_events gun_client shoot_wire shoot_resp_events answlog_logs decode_header header_line
-  prepare_pool client_of instance_clients distinct_clients conn_ok clients_ok t_run t_init requests_of eff_max_idle hist_ok.
+  prepare_pool client_of instance_clients distinct_clients conn_ok clients_ok t_run t_init requests_of eff_max_idle hist_ok
+  gun_arm tt_run tt_init tt_obs.
